@@ -84,6 +84,9 @@ pub struct Model {
     pub bad_accounting: bool,
     pub bad_keys_identity: bool,
     pub bad_weight_identity: bool,
+    /// puts / upserts-as-put that were acknowledged with an admission rejection (not enough space,
+    /// heavier than the cache), as observed by the caller
+    pub seen_admission_rejections: u64,
 }
 
 fn add_dur(a: Dur, b: Dur) -> Option<Dur> {
@@ -111,6 +114,7 @@ impl Model {
             bad_accounting: false,
             bad_keys_identity: false,
             bad_weight_identity: false,
+            seen_admission_rejections: 0,
         }
     }
 
@@ -220,6 +224,9 @@ impl Model {
             if op.is_write() {
                 self.last_key = op.key();
             }
+        }
+        if matches!(op, Op::Put { .. } | Op::Upsert { .. }) && matches!(st, Some(St::RejNoSpace) | Some(St::RejTooHeavy)) {
+            self.seen_admission_rejections += 1;
         }
         match op {
             Op::Put { key, val, weight, ttl, .. } => {
@@ -716,6 +723,14 @@ impl Model {
                 msg: format!("hit_ratio = {} ppm with hits {} misses {}, expected {} ppm", s.hit_ratio_ppm, s.hits, s.misses, exp_ratio),
             });
         }
+        if s.keys_rejected != self.seen_admission_rejections && self.pending.is_empty() {
+            out.push(Mis {
+                aspect: "stats.identity",
+                class: "rejected".into(),
+                ctx: String::new(),
+                msg: format!("KeysRejected {} != {} puts acknowledged as refused by admission", s.keys_rejected, self.seen_admission_rejections),
+            });
+        }
         if s.hits + s.misses != m.hits + m.misses {
             out.push(Mis {
                 aspect: "stats.identity",
@@ -818,6 +833,7 @@ impl Model {
         self.stats.access_added = keep_access.0;
         self.stats.access_dropped = keep_access.1;
         self.stats.hit_ratio_ppm = 0;
+        self.seen_admission_rejections = o.stats.keys_rejected;
         self.bad_limit = o.weight_used < 0 || o.weight_used > self.cfg.weight;
         let sum: i64 = o.weights.iter().map(|w| w.3).sum();
         let store_ids: BTreeSet<u64> = o.store.iter().map(|s| s.1).collect();
